@@ -27,7 +27,9 @@ Inductive mw_rule : Type :=
 | MWAutoElseGiven        (* None if num_processes == "auto" else num_processes *)
 | MWGiven                (* num_processes *)
 | MWUnlimited            (* None *)
-| MWFixed (n : nat).
+| MWFixed (n : nat)
+| MWAutoCapped           (* min(cpu count, len(tasks)) if num_processes == "auto" else num_processes *)
+| MWAutoCappedFloor.     (* max(1, min(cpu count, len(tasks))) if num_processes == "auto" else num_processes *)
 
 (* the num_processes argument *)
 Inductive nproc : Type :=
@@ -163,11 +165,13 @@ Definition is_serial (P : parallel_glue) (np : nproc) : bool :=
   match np with NPInt n => Nat.eqb n (p_serial_when P) | NPAuto => false end.
 
 (* max_workers handed to ProcessPoolExecutor; None -> os.process_cpu_count() = ncpu *)
-Definition workers (P : parallel_glue) (np : nproc) (ncpu : nat) : nat :=
+Definition workers (P : parallel_glue) (np : nproc) (ncpu ntasks : nat) : nat :=
   match p_max_workers P with
   | MWAutoElseGiven | MWGiven => match np with NPAuto => ncpu | NPInt n => n end
   | MWUnlimited => ncpu
   | MWFixed n => n
+  | MWAutoCapped => match np with NPAuto => Nat.min ncpu ntasks | NPInt n => n end
+  | MWAutoCappedFloor => match np with NPAuto => Nat.max 1 (Nat.min ncpu ntasks) | NPInt n => n end
   end.
 
 Section CallSites.
@@ -186,7 +190,7 @@ Section CallSites.
     : outcome (list C) :=
     if is_serial P np then Done (keep (p_serial_filters_none P) (map f_ser xs))
     else
-      let w := workers P np ncpu in
+      let w := workers P np ncpu (length xs) in
       if Nat.eqb w 0 then Failed BadWorkerCount
       else match pool_collect f_par (p_gather P) xs sigma w with
            | Some ys => Done (keep (p_parallel_filters_none P) ys)
@@ -230,7 +234,7 @@ Section OptionsState.
     if is_serial P np then
       let (ys, o') := serial_tasks o xs in Done (keep is_none (p_serial_filters_none P) ys, o')
     else
-      let w := workers P np ncpu in
+      let w := workers P np ncpu (length xs) in
       if Nat.eqb w 0 then Failed BadWorkerCount
       else match pool_collect (fun x => fst (call_task o x)) (p_gather P) xs sigma w with
            | Some ys => Done (keep is_none (p_parallel_filters_none P) ys, o)
@@ -240,3 +244,35 @@ End OptionsState.
 Arguments call_task {A C O}.
 Arguments serial_tasks {A C O}.
 Arguments mapped_with_options {A C O}.
+
+(* ------------------------------------------------------------------------------------------ *)
+(* tasks that may write into the ARGUMENT object they are handed (the candidate droplet)         *)
+(* ------------------------------------------------------------------------------------------ *)
+(* `refine_droplet(phase_field, candidate)`: `task x` = (result, state of the object the task worked on when it
+   returns).  Whether that object is the caller's candidate or a copy made before the first write is a fact
+   about the source (`copies`, generated).  Serially the task works on the caller's objects; a pool task works
+   on an unpickled copy.  The second component of the outcome is what the caller's candidate list looks like
+   afterwards. *)
+Section ArgumentsState.
+  Variables A C : Type.
+  Variable is_none : C -> bool.
+  Variable P : parallel_glue.
+  Variable copies : bool.
+  Variable task : A -> C * A.
+
+  Definition argument_after (x : A) : A := if copies then x else snd (task x).
+
+  Definition mapped_with_arguments (np : nproc) (ncpu : nat) (sigma : list nat) (xs : list A)
+    : outcome (list C * list A) :=
+    if is_serial P np then
+      Done (keep is_none (p_serial_filters_none P) (map (fun x => fst (task x)) xs), map argument_after xs)
+    else
+      let w := workers P np ncpu (length xs) in
+      if Nat.eqb w 0 then Failed BadWorkerCount
+      else match pool_collect (fun x => fst (task x)) (p_gather P) xs sigma w with
+           | Some ys => Done (keep is_none (p_parallel_filters_none P) ys, xs)
+           | None => Failed Blocked
+           end.
+End ArgumentsState.
+Arguments argument_after {A C}.
+Arguments mapped_with_arguments {A C}.
